@@ -12,6 +12,7 @@ import Verif.Model.Funcs
 import Verif.Model.Calc
 import Verif.Model.Mustache
 import Verif.Model.Variant
+import Verif.Model.VariantHeap
 
 open Verif
 
@@ -480,50 +481,75 @@ def parseHost (kind payload : String) (slots : Array V) : Option HostVal :=
     | some (.array es) => some (.list es)
     | _ => none
 
-def varStep (slots : Array V) (op : String) : Array V × String :=
-  let get (k : String) : V := slots.getD (k.toNat?.getD 0) .null
-  let put (k : String) (v : V) : Array V := slots.setIfInBounds (k.toNat?.getD 0) v
+structure VarSt where
+  h : VHeap
+  slots : Array Nat
+
+def VarSt.init : VarSt :=
+  { h := ⟨[.scalar .null, .scalar .null, .scalar .null, .scalar .null]⟩, slots := #[0, 1, 2, 3] }
+
+def rdFuel : Nat := 64
+
+def varStep (st : VarSt) (op : String) : VarSt × String :=
+  let ref (k : String) : Nat := st.slots.getD (k.toNat?.getD 0) 0
+  let val (k : String) : V := st.h.read rdFuel (ref k)
+  let setSlot (k : String) (h : VHeap) (r : Nat) : VarSt := { h := h, slots := st.slots.setIfInBounds (k.toNat?.getD 0) r }
   match op.splitOn ":" with
-  | ["new", k, kind, payload] =>
-    match parseHost kind payload slots with
-    | some h => (put k (ofHost h), "-")
-    | none => (slots, "bad")
-  | ["new", k, kind] =>
-    match parseHost kind "" slots with
-    | some h => (put k (ofHost h), "-")
-    | none => (slots, "bad")
+  | "new" :: k :: kind :: rest =>
+    let payload := rest.headD ""
+    if kind == "var" then
+      -- NewVariant(*Variant): a new object with Assign semantics (own list, same element objects)
+      let a := st.h.alloc (st.h.cell (ref payload))
+      (setSlot k a.1 a.2, "-")
+    else
+      match parseHost kind payload #[] with
+      | some hv =>
+        let a := st.h.allocV (ofHost hv)
+        (setSlot k a.1 a.2, "-")
+      | none => (st, "bad")
   | ["set", k, enc] =>
     match decV enc with
-    | some v => (put k v, "-")
-    | none => (slots, "bad")
+    | some v =>
+      let b := st.h.build v
+      ({ st with h := b.1.write (ref k) b.2 }, "-")
+    | none => (st, "bad")
   | ["len", k, n] =>
-    match setLength (get k) (n.toNat?.getD 0) with
-    | some v => (put k v, "-")
-    | none => (slots, "panic")
+    match st.h.setLength (ref k) (n.toNat?.getD 0) with
+    | some h => ({ st with h := h }, "-")
+    | none => (st, "panic")
   | ["sidx", k, i, enc] =>
     match decV enc, i.toInt? with
     | some e, some i =>
-      (match setByIndex (get k) i e with
-       | some v => (put k v, "-")
-       | none => (slots, "panic"))
-    | _, _ => (slots, "bad")
+      (match st.h.setByIndex (ref k) i e with
+       | some h => ({ st with h := h }, "-")
+       | none => (st, "panic"))
+    | _, _ => (st, "bad")
+  | ["midx", k, i, enc] =>
+    match decV enc, i.toInt? with
+    | some e, some i =>
+      (match st.h.mutElem (ref k) i e with
+       | some h => ({ st with h := h }, "-")
+       | none => (st, "panic"))
+    | _, _ => (st, "bad")
   | ["gidx", k, i] =>
     match i.toInt? with
-    | some i => (slots, match getByIndex (get k) i with | some v => encV v | none => "panic")
-    | none => (slots, "bad")
-  | ["asg", d, sK] => (put d (get sK), "-")
-  | ["cln", d, sK] => (put d (get sK), "-")
-  | ["eq", a, b] => (slots, if veq (get a) (get b) then "T" else "F")
-  | ["clr", k] => (put k .null, "-")
-  | ["obs", k] => (slots, s!"{(get k).typ.toNat}/{encV (get k)}/{vLength (get k)}")
-  | ["mut", _] => (slots, "-")
-  | _ => (slots, "bad")
+    | some i => (st, match st.h.elemRef (ref k) i with | some r => encV (st.h.read rdFuel r) | none => "panic")
+    | none => (st, "bad")
+  | ["asg", d, sK] => ({ st with h := st.h.assign (ref d) (ref sK) }, "-")
+  | ["cln", d, sK] =>
+    let c := st.h.clone rdFuel (ref sK)
+    (setSlot d c.1 c.2, "-")
+  | ["eq", a, b] => (st, if veq (val a) (val b) then "T" else "F")
+  | ["clr", k] => ({ st with h := st.h.write (ref k) (.scalar .null) }, "-")
+  | ["obs", k] => (st, s!"{(val k).typ.toNat}/{encV (val k)}/{vLength (val k)}")
+  | ["mut", _] => (st, "-")
+  | _ => (st, "bad")
 
 def doVar (args : List String) : String :=
-  let (slots, outs) := args.foldl (fun (acc : Array V × List String) op =>
+  let (st, outs) := args.foldl (fun (acc : VarSt × List String) op =>
     let (s', o) := varStep acc.1 op
-    (s', o :: acc.2)) (#[.null, .null, .null, .null], [])
-  " ".intercalate outs.reverse ++ " | " ++ " ".intercalate (slots.toList.map encV)
+    (s', o :: acc.2)) (VarSt.init, [])
+  " ".intercalate outs.reverse ++ " | " ++ " ".intercalate (st.slots.toList.map fun r => encV (st.h.read rdFuel r))
 
 def handle (line : String) : String :=
   match (line.trimAscii.toString.splitOn " ").filter (· != "") with
